@@ -7,6 +7,7 @@ import (
 	"verif/harness/ev"
 )
 
+// (The single frame is marked "hello": the causal channel releases that kind without waiting for a work-start.)
 // FuzzClientStream: coverage-guided search over the raw bytes of the server->client stream. The client is given the
 // bytes (all available at once, whatever it has written) followed by the end of the stream, and performs ReadSchema,
 // one or two Execute calls and Close. Oracle as in TestFaults: every call returns, nothing panics, no client goroutine
@@ -28,7 +29,7 @@ func FuzzClientStream(f *testing.F) {
 			return
 		}
 		ids := []string{"r1", "r2"}[:1+int(nRuns)%2]
-		c := Case{Op: "fault", Frames: []Frame{{Bytes: data, Cause: 0, Kind: "fuzz"}}, K: len(data), Fault: "eof", WriteFailAt: -1, RunIDs: ids, Serial: serial}
+		c := Case{Op: "fault", Frames: []Frame{{Bytes: data, Cause: 0, Kind: "hello"}}, K: len(data), Fault: "eof", WriteFailAt: -1, RunIDs: ids, Serial: serial}
 		if ev.FuzzConvert("fault", c) {
 			return
 		}
